@@ -93,7 +93,7 @@ def gen_family(rng, measure=None, subpix=None, tall=False):
     if tall:
         # a few hundred rows, a handful of columns: any row-blocked rewriting of the masking loops (blocks of ~100
         # rows, remainders) has to show on the per-pixel grids of the last rows
-        measure, subpix, window = rng.choice(["sad", "ssd"]), 1, rng.choice([1, 1, 3])
+        measure, subpix, window = rng.choice(["sad", "ssd"]), 1, 1     # window 1: no border hides the last rows
         rows, cols = rng.choice([203, 251, 302, 407]) + rng.randrange(0, 3), rng.randrange(5, 8)
     amp = {"sad": 255, "ssd": 60, "census": 255, "zncc": 255}[measure]
     style = rng.choice(["rand", "rand", "rand", "small"])
@@ -707,7 +707,11 @@ def run(ctx):
             check_family(ctx, fam, jobs)
             run_model_jobs(ctx, model, jobs)
         return
-    mc_gen.run(ctx)            # the generated index arithmetic against the real functions / statements
+    # the generated index arithmetic against the real functions / statements; it draws from its own copy of the
+    # generator state, so that the families below are the same whether or not the translation succeeded
+    state = rng.getstate()
+    mc_gen.run(ctx)
+    rng.setstate(state)
     n_fam = 44 if quick else 2500
     fams = [gen_family(rng, measure=m, subpix=s) for m in mu.MEASURES for s in (1, 2, 4)]
     for i, f in enumerate(fams):                      # every measure x subpix with and without aggregation
